@@ -61,7 +61,7 @@ func cmdText(args []string) {
 		return nil
 	}))
 	var src strings.Builder
-	src.WriteString("package p\n\ntype S struct{ A int }\ntype T struct{ A int }\ntype S2 struct{ A string }\ntype T2 struct{ A string }\n")
+	src.WriteString("package p\n\ntype In struct{ C int }\ntype S struct {\n\tA     int\n\tNick  *string\n\tInner In\n\tPI    *In\n}\ntype T struct{ A int }\ntype S2 struct {\n\tA string\n\tB int\n}\ntype T2 struct {\n\tA string\n\tB int\n}\n\nfunc Fixed() int { return 1 }\nfunc ToA(v int) int { return v }\nfunc NewT() T { return T{} }\nfunc NewT2() *T2 { return &T2{} }\n")
 	for i, s := range scens {
 		src.WriteString("\n// goverter:converter\n")
 		for _, l := range s.ConvText {
@@ -75,7 +75,7 @@ func cmdText(args []string) {
 		for _, l := range s.SibText {
 			src.WriteString("\t// goverter:" + l + "\n")
 		}
-		src.WriteString("\tSib(source S2) T2\n}\n")
+		src.WriteString("\t// goverter:update target\n\tSib(source S2, target *T2)\n}\n")
 	}
 	hx.WriteTree(*work, map[string]string{"go.mod": "module v.test/b\ngo 1.18\n", "p/in.go": src.String(),
 		"wx/wx.go": wrapPkg("wx"), "wy/wy.go": wrapPkg("wy")})
